@@ -2,11 +2,13 @@
    Model: Chan/Multi.v (create_stream_id / report_stream_dropped as atomic steps; the stepped versions are C17's). *)
 From RM Require Import Util RingModel RingInv RingProps Chan Multi MultiProps.
 
-(* bookkeeping, for every history of one thread, of any length: the vacant FIFO never holds an id twice, holds only ids
+(* (`atomic_ev`: listeners are created and dropped between sends, as single steps - the property's histories; creation and
+   removal racing with a send is C17.)
+   bookkeeping, for every history of one thread, of any length: the vacant FIFO never holds an id twice, holds only ids
    below MAX_STREAMS, and the live streams are exactly the ids below MAX_STREAMS that are not vacant - hence at most
    MAX_STREAMS streams exist and #live = MAX_STREAMS - #vacant at all times *)
 Theorem C10_bookkeeping :
-  forall N M mevs, Forall (fun e => mtid e = 0%nat) mevs ->
+  forall N M mevs, Forall (fun e => mtid e = 0%nat /\ atomic_ev e = true) mevs ->
     let s := fold_left (mexec N M) mevs (minit M) in
     NoDup (vacant s) /\ (forall i, In i (vacant s) -> (i < M)%nat) /\
     (forall i, alive s i = true <-> ((i < M)%nat /\ ~ In i (vacant s))).
@@ -16,7 +18,7 @@ Print Assumptions C10_bookkeeping.
 (* creating and dropping any number of times never exhausts the ids: whenever fewer than MAX_STREAMS streams are alive,
    the vacant list is non-empty, so the next create succeeds *)
 Theorem C10_ids_never_exhausted :
-  forall N M mevs, Forall (fun e => mtid e = 0%nat) mevs ->
+  forall N M mevs, Forall (fun e => mtid e = 0%nat /\ atomic_ev e = true) mevs ->
     let s := fold_left (mexec N M) mevs (minit M) in
     (exists i, (i < M)%nat /\ alive s i = false) -> vacant s <> [].
 Proof. intros N M mevs H s. apply ids_never_exhausted. now apply bookkeeping_sequential. Qed.
